@@ -162,10 +162,18 @@ func (t *Tree) synthFile(pkg string, methods []MethodSpec) *descriptorpb.FileDes
 
 func rowPkg(id int) string { return fmt.Sprintf("p%d", id) }
 
+// The method of a lattice row has a proto name that is not already a Go identifier in camel case, so that the
+// string under which the stubs send and the server registers (the full proto name) differs from anything
+// derived from the Go name.
+const (
+	rowMethodProto = "foo_bar"
+	rowMethodGo    = "FooBar"
+)
+
 // synthRow builds the single-method file of a lattice row.
 func (t *Tree) synthRow(id int) *descriptorpb.FileDescriptorProto {
 	pkg := rowPkg(id)
-	return t.synthFile(pkg, []MethodSpec{{Name: "Foo", Row: id, Opts: rowOpts(id), In: "." + pkg + ".Request", Out: "." + pkg + ".Response"}})
+	return t.synthFile(pkg, []MethodSpec{{Name: rowMethodProto, Row: id, Opts: rowOpts(id), In: "." + pkg + ".Request", Out: "." + pkg + ".Response"}})
 }
 
 // Request marshals a CodeGeneratorRequest for generating fdp (dependencies first).
